@@ -132,6 +132,8 @@ func c10Ends(c c10Case) *Outcome {
 		ctxErr, ccErr error
 		cc            context.Context
 		waited        bool
+		dl0, dl1      time.Time // the handler's Deadline() on entry and once its context is done
+		has0, has1    bool
 		label         string
 		hasLabel      bool
 	}
@@ -143,11 +145,13 @@ func c10Ends(c c10Case) *Outcome {
 		s.cc = inprocgrpc.ClientContext(ctx)
 		s.label, s.hasLabel = pprof.Label(ctx, "tenant")
 		if c.Ends != "live" {
+			s.dl0, s.has0 = ctx.Deadline()
 			select {
 			case <-ctx.Done():
 				s.waited = true
 			case <-time.After(stallBound / 2):
 			}
+			s.dl1, s.has1 = ctx.Deadline()
 			s.ctxErr = ctx.Err()
 			if s.cc != nil {
 				select {
@@ -289,6 +293,18 @@ func c10Ends(c c10Case) *Outcome {
 	}
 	if s.ccErr != wantErr {
 		return o.failf("context-end/%s (stream=%v): ClientContext(ctx).Err() is %v in the handler, the caller's context ended with %v", c.Ends, c.EndsStream, s.ccErr, wantErr)
+	}
+	// the deadline the handler is told is the caller's, on entry and just the same once it has passed (or, for a
+	// caller without one, none at either moment)
+	callerDL, callerHas := ctx.Deadline()
+	for i, got := range []struct {
+		dl  time.Time
+		has bool
+	}{{s.dl0, s.has0}, {s.dl1, s.has1}} {
+		when := []string{"on entry", "after its context ended"}[i]
+		if got.has != callerHas || (callerHas && !got.dl.Equal(callerDL)) {
+			return o.failf("context-end/%s (stream=%v): the handler's ctx.Deadline() %s is (%v, %v), the caller's is (%v, %v)", c.Ends, c.EndsStream, when, got.dl, got.has, callerDL, callerHas)
+		}
 	}
 	return o
 }
@@ -756,7 +772,7 @@ func genC10(t *rapid.T) c10Case {
 
 func init() { registerReplay("C10", propC10) }
 
-const c10Rule = "rapid-generated: 1..3 nesting levels (each in-process handler makes the next call from its own context, so the caller's context carries an enclosing call's incoming metadata, peer, transport stream and client-context key), 0..6 context values per level under string/int/struct/pointer/typed keys, outgoing metadata present or absent per level, incoming metadata and a foreign peer planted in the outermost context, optional deadline, unary or streaming per level, with/without server interceptors, optional cancellation of the outermost caller, optional metadata mutation on both sides, optional per-RPC credentials per level under a key of their own or under one the caller's metadata uses too; a separate mode where the caller's context really ends (15 ms deadline, or cancellation once the handler runs) or stays live after the call: the handler's ctx.Err() and ClientContext(ctx).Err() say DeadlineExceeded resp. Canceled (also when the caller's context ends with a cause of its own), profiler labels of the caller's context are not visible, and the accessor's context is still live after the handler has returned; " +
+const c10Rule = "rapid-generated: 1..3 nesting levels (each in-process handler makes the next call from its own context, so the caller's context carries an enclosing call's incoming metadata, peer, transport stream and client-context key), 0..6 context values per level under string/int/struct/pointer/typed keys, outgoing metadata present or absent per level, incoming metadata and a foreign peer planted in the outermost context, optional deadline, unary or streaming per level, with/without server interceptors, optional cancellation of the outermost caller, optional metadata mutation on both sides, optional per-RPC credentials per level under a key of their own or under one the caller's metadata uses too; a separate mode where the caller's context really ends (15 ms deadline, or cancellation once the handler runs) or stays live after the call: the handler's ctx.Err() and ClientContext(ctx).Err() say DeadlineExceeded resp. Canceled (also when the caller's context ends with a cause of its own), ctx.Deadline() in the handler is the caller's on entry and still after it has passed, profiler labels of the caller's context are not visible, and the accessor's context is still live after the handler has returned; " +
 	"oracle in every handler: ctx.Value(k) == nil for every key of every enclosing caller; ClientContext(ctx) is the caller's context and yields its values; incoming metadata = caller's outgoing metadata (none => none); peer network inproc; deadline equal to the caller's; ServerTransportStream.Method() is this call's method; cancellation reaches the innermost handler; metadata mutation on one side invisible on the other; " +
 	"also generated since the seeded rounds: callers mutating their metadata map after the call started, grpc-prefixed application keys (grpc-trace-bin, ...), a caller peer with TLS auth info (the handler's peer must stay purely in-process); " +
 	"non-trivial = >=1 caller value and (nested or outgoing metadata present); distinct by case hash"
